@@ -17,6 +17,17 @@ var realOrder = []string{"compile (loader, linker, scopes, constants, services)"
 var stubOrder = []string{"Go map iteration order -> seeded permutation at every range-over-map site of the code under test (MapSeq) and at reflect MapKeys", "file system -> in-memory compile.FS (C07) / private tmpfs directory (C10, C20)"}
 
 var specs = map[string]Spec{
+	"C10": {
+		Prop: "C10", Engine: "order-world", Level: "exploration", Binary: "root",
+		Quick:    Tier{Count: 2400, BudgetS: 50},
+		Thorough: Tier{Count: 200000, BudgetS: 1200},
+		Rule: "one run = one (program, option set): seeded program of 1-5 files (many includes incl. unused ones, same names in several files, file names equal to packages the generated code imports (fmt, errors, strings, wire, stream, zapcore, ...), recursive types, constants of list/set/map type, defaults, services with inheritance across files) x options (no-recurse, no-types, no-constants, no-service-helpers, no-embed-idl, no-zap, no-version-check, enum-text-marshal-strict, output-file), compiled and generated N times (6 quick, 16 thorough) into a fresh directory, each time under another seeded map-iteration order at every range-over-map site of compile/ and gen/ (sorted, reverse, random, rotated, one-key-first) with an in-process capturing service generator; oracles: same outcome, same set of paths, same sha256 of every file, same plugin request after renumbering module ids by Thrift path and service ids by (module path, Thrift name); root lists compared as multisets. " +
+			"Every run is non-trivial; distinct = distinct choice lists.",
+		RealComp: realOrder, StubComp: stubOrder,
+		Assume: []string{"map iteration inside third-party code is not seamed (text/template sorts map keys; go/format has none that affects output)",
+			"the order of rootServices/rootModules follows the same arbitrary module walk that numbers the ids and is compared as a multiset (an order-only difference is counted as an observation)",
+			"cross-process determinism is covered through the seam: the only per-process nondeterminism of the generator is map iteration order"},
+	},
 	"C07": {
 		Prop: "C07", Engine: "order-world", Level: "exploration", Binary: "root",
 		Quick:    Tier{Count: 40000, BudgetS: 40},
